@@ -121,8 +121,23 @@ pub fn strategy() -> BoxedStrategy<Case> {
                             HolderOp::Good { selection, kb }
                         }
                         0 => {
+                            // the unknown name at the top level, or as deep inside the selection
+                            // as its objects go (the call then fails far down the recursion)
                             let mut selection = selection;
-                            selection.insert("no_such_claim_zz".into(), Value::Bool(true));
+                            fn plant_deep(m: &mut serde_json::Map<String, Value>) {
+                                let next = m.iter().find(|(_, v)| v.is_object()).map(|(k, _)| k.clone());
+                                match next {
+                                    Some(k) => plant_deep(m.get_mut(&k).unwrap().as_object_mut().unwrap()),
+                                    None => {
+                                        m.insert("no_such_claim_zz".into(), Value::Bool(true));
+                                    }
+                                }
+                            }
+                            if bits & 1 == 0 {
+                                selection.insert("no_such_claim_zz".into(), Value::Bool(true));
+                            } else {
+                                plant_deep(&mut selection);
+                            }
                             HolderOp::UnknownClaim { selection }
                         }
                         2 => {
@@ -151,6 +166,19 @@ pub fn strategy() -> BoxedStrategy<Case> {
                     }
                 })
                 .collect::<Vec<HolderOp>>();
+            // a failing call is often retried as it is, several times in a row
+            let mut ops = ops;
+            if let Some(i) = ops.iter().position(|o| matches!(o, HolderOp::UnknownClaim { .. })) {
+                if i % 2 == 0 && ops.len() >= 2 {
+                    let last = ops.last().cloned().unwrap();
+                    let f = ops[i].clone();
+                    for _ in 0..3 {
+                        ops.insert(i + 1, f.clone());
+                    }
+                    ops.truncate(7);
+                    ops.push(last);
+                }
+            }
             // claims with aliasing names ("a.b" next to a -> b, "list[0]" next to list -> [..]):
             // present the nested spelling and then the dotted spelling on the same holder
             let mut ops = ops;
